@@ -76,6 +76,12 @@ def fault_snippets(w):
         'internal-label-predeclared': ([';', 'ns _ {', 'wflip_area_start_0:', '}', ';', 'segment 16*w', ';'], 'only', ['wflip_area_start_0']),
         'huge-literal': ([';' + '9' * 5000], 'end', ['literal', 'number', 'digit', 'too', 'long', 'big', 'fit', 'bits', 'range']),
     }
+    # characters that python's str.split() / str.strip() treat as blank but the lexer does not, as the last thing in the file
+    for ch in ('\x0b', '\x0c', '\x1c', '\x1f'):
+        f['bad-char-%02x-last' % ord(ch)] = ([ch], 'eof', ['lexing error'])
+        f['bad-char-%02x-then-blank-lines' % ord(ch)] = ([ch + ' ', '', ' '], 'end', ['lexing error'])
+    for ch in ('\x85', '\xa0', '\u2003', '\u3000'):
+        f['bad-char-u%04x-last:utf8' % ord(ch)] = ([ch], 'eof', ['lexing error'])
     f['non-utf8-source-bytes'] = (['\xff\xfe;'], 'end', ['utf', 'decode', 'encod', 'byte'])
     # values far beyond any word (no python int -> decimal string conversion may be attempted on them: 4300-digit limit)
     huge = '(1 << 20000)'
@@ -220,14 +226,14 @@ def apply_mutations(src, muts):
     return src
 
 
-def assemble(src, w, version):
+def assemble(src, w, version, encoding='latin-1'):
     import flipjump
     from flipjump.fjm.fjm_consts import FJMVersion
     from flipjump.utils.exceptions import FlipJumpException
     tmp = engines.tmpdir()
     f = tmp / 'c14.fj'
     # generated sources are ascii; a character 128..255 (byte mutations, the non-utf8 fault) is written as that raw byte
-    f.write_bytes(src.encode('latin-1', 'replace'))
+    f.write_bytes(src.encode(encoding, 'replace'))
     out = tmp / 'c14.fjm'
     if os.path.exists(out):
         os.unlink(out)
@@ -303,7 +309,7 @@ def run_case(case):
             cl.append('stage=' + case['fault'].split(':')[1])
     else:
         src = apply_mutations(src, case['mutations'])
-    status, exc, out = assemble(src, w, case['version'])
+    status, exc, out = assemble(src, w, case['version'], 'utf-8' if str(case.get('fault', '')).endswith(':utf8') else 'latin-1')
     if status == 'timeout':
         return Discard('inconclusive: assembler wall guard')
     if status == 'raw':
